@@ -1743,8 +1743,37 @@ class C16(ValProp):
     rule = ('random (type, value) cases: to_obj shape (checked structurally and against the model JSON), from_obj(to_obj) '
             'and from_obj(json.loads(json.dumps(to_obj))) equal the original (==, root); non-trivial/distinct as C01')
 
+    def generate(self, g, tier, focus=None):
+        out = ValProp.generate(self, g, tier)
+        # the export of values whose backing is served lazily by a root-keyed source, before and after mutations
+        for _ in range(self.n(tier) // 6):
+            t, v = self.tv(g, tier, mutable=True)
+            if is_basic(t):
+                continue
+            hist, _ = g.ops(t, v, g.rng.choice([1, 3]), 0.0)
+            ops = [['obj']]
+            for o in hist:
+                ops += [o, ['obj']]
+            out.append(show(['virt', t, v] + ops))
+        return out
+
     def compare(self, case, py, mo, stats):
         out = []
+        if case[0] == 'virt':
+            bump(stats, 'kinds', 'lazy:' + kind(case[1]))
+            if py.get('p.skip') or py.get('p.ctor') == 'err' or py.get('p.import', 'ok') != 'ok':
+                return out
+            for i, op in enumerate(case[3:]):
+                p = '%d.' % i
+                a, c, m = py.get(p + 'p'), py.get(p + 'c'), mo.get(p + 'ic')
+                if op[0] == 'obj':
+                    if a != c:
+                        out.append(F('prop', 'export of a value whose backing is served lazily differs from the export of the materialised value: op %d' % i, a, c))
+                        break
+                    if (c or '').startswith('ok') and c != m:
+                        out.append(F('prop', 'exported object shape (after %d ops)' % i, c, m))
+                        break
+            return out
         self.note_tv(stats, case[1], case[2])
         if py.get('p.ctor') != 'ok':
             return [F('prop', 'ctor', py.get('p.ctor'), 'valid value must be constructible')]
@@ -1933,6 +1962,16 @@ class C18(Prop):
             cmds.append(['leaves'])
             cmds.append(['vleaves'])
             out.append(show(['tree', base] + cmds))
+            if r.random() < 0.4 and d >= 2:
+                # a data chunk of the FIRST tree holds the root of the subtree that a LATER tree has one level up (a
+                # `state_root`-style field): the entries at the two levels have equal roots without being the same subtree
+                gt = r.randint(4, (1 << (d + 1)) - 1)
+                later = self.write_full(g, self.write_full(g, base, d), d)
+                up = self.sx_get(later, gt >> 1)
+                if up is not None and up[0] == 'P':
+                    first = self.sx_put(base, gt, ['L', self.sx_root(up).hex()])
+                    h2 = [later] + ([self.write_full(g, later, d)] if r.random() < 0.5 else [])
+                    out.append(show(['tree', first, ['hist', gt] + h2, ['hist', gt >> 1] + h2, ['hist', gt ^ 1] + h2]))
             if r.random() < 0.5:
                 # same root, different shape: zero summaries against (partially) expanded zero subtrees
                 tz = g.tree(r.choice([2, 3, 4]), 0.4)
@@ -1980,6 +2019,37 @@ class C18(Prop):
         if d == 0:
             return ['L', g.chunk().hex()]
         return ['P', self.full(g, d - 1), self.full(g, d - 1)]
+
+    @staticmethod
+    def sx_get(tr, gi):
+        for bit in bin(gi)[3:]:
+            if tr[0] != 'P':
+                return None
+            tr = tr[1] if bit == '0' else tr[2]
+        return tr
+
+    @staticmethod
+    def sx_put(tr, gi, new):
+        bits = bin(gi)[3:]
+        if not bits:
+            return new
+        if tr[0] != 'P':
+            return tr
+        if bits[0] == '0':
+            return ['P', C18.sx_put(tr[1], int('1' + bits[1:], 2), new), tr[2]]
+        return ['P', tr[1], C18.sx_put(tr[2], int('1' + bits[1:], 2), new)]
+
+    @staticmethod
+    def sx_root(tr):
+        import hashlib
+        if tr[0] == 'L':
+            return bytes.fromhex(tr[1])
+        if tr[0] == 'Z':
+            z = b'\x00' * 32
+            for _ in range(int(tr[1])):
+                z = hashlib.sha256(z + z).digest()
+            return z
+        return hashlib.sha256(C18.sx_root(tr[1]) + C18.sx_root(tr[2])).digest()
 
     def write_full(self, g, tr, d):
         if d == 0:
@@ -2082,6 +2152,26 @@ class C08(Prop):
             wrap = r.random() < 0.3 and t[0] != 'vec'   # (a container class with a huge vector field cannot be exercised: its default value is huge)
             tt = ['cont', 'u8', t, 'u16'] if wrap else t
             out.append(show(['path', tt] + ([1] if wrap else []) + [key] + ([1] if e[0] == 'cont' and key < lim and r.random() < 0.5 else [])))
+        # list positions just BEYOND the value's length but within the limit (the slot next to the last element, the
+        # rest of its packed chunk): valid in the type, absent from the value
+        for _ in range(max(10, self.n(tier) // 12)):
+            e = r.choice(['u8', 'u16', 'u64', 'u256', 'bool', ['cont', 'u8', 'u16'], ['Bv', 4], ['list', 'u8', 3], ['bl', 9]])
+            ln = r.choice([1, 2, 3, 4, 5, 7])
+            lim = ln + r.choice([1, 2, 5, 30, 1000])
+            t, v = ['list', e, lim], ['s'] + [g.val(e, 3) for _ in range(ln)]
+            wrap = r.random() < 0.4
+            tt, vv = (['cont', 'u8', t], ['s', '3', v]) if wrap else (t, v)
+            for key in sorted({ln, ln + 1, lim - 1}):
+                if key < lim:
+                    tail = [0] if not is_basic(e) and kind(e) != 'Bv' and r.random() < 0.5 else []
+                    out.append(show(['pathv', tt, vv] + ([1] if wrap else []) + [key] + tail))
+            if kind(e) in ('list', 'bl'):
+                out.append(show(['pathv', tt, vv] + ([1] if wrap else []) + [0, len(v[1]) - 1 if isinstance(v[1], str) else len(v[1]) - 1]))
+        # the EMPTY path (the anchor itself: generalized index 1), alone and concatenated
+        for _ in range(max(4, self.n(tier) // 40)):
+            t = g.ty(r.choice([1, 2]), composite_only=True)
+            out.append(show(['path', t]))
+            out.append(show(['pathv', t, g.val(t, 4)]))
         # container types that PRINT alike (same class name, same field names, same field class names; they differ in a
         # length / limit of a field): the same path through each of them, one after the other
         for fam in alike_families(g, max(6, self.n(tier) // 25)):
@@ -2174,6 +2264,18 @@ class C08(Prop):
                 out.append(F('prop' if mo.get('i.node') != 'err' else 'corr', 'node at the gindex', py.get('p.node'), mo.get('i.node')))
             if py.get('p.dyn') not in ('err', sg):
                 out.append(F('prop', 'dynamic gindex differs from static', py.get('p.dyn'), sg))
+            nr = mo.get('i.navroot')
+            if case[0] == 'pathv' and nr is not None:
+                # value-dependent results against the value's CONTENT (model: `navVal`, the sub-value the keys address in the value)
+                if nr == 'err':
+                    if py.get('p.navv') not in (None, 'err'):
+                        out.append(F('prop', 'a view navigation was returned for a position the value does not have', py.get('p.navv'), 'err'))
+                    if py.get('p.dyn') not in (None, 'err'):
+                        out.append(F('prop', 'a value-dependent index was returned for a position the value does not have', py.get('p.dyn'), 'err'))
+                elif py.get('p.navv') not in (None, 'err', 'none') and py.get('p.navv') != nr:
+                    out.append(F('prop', 'the navigated view does not have the root of the addressed sub-value', py.get('p.navv'), nr))
+                elif py.get('p.navv') == 'err':
+                    out.append(F('corr', 'view navigation refused although the position exists in the value', 'err', nr))
         return out
 
 
@@ -2379,6 +2481,27 @@ class C19(HistProp):
             if t[0] == 'list' and len(v) < 2:
                 v = ['s', g.val(e, 20)]
             out.append(show(['hist', t, v, ['setv', i, g.max_val(e) or g.val(e, 60)], ['setv', i, g.val(e, 60)]]))
+        # a union value view taken, the union then changed to the SAME selector and the SAME value through the parent, then one
+        # basic value written through the old value view: only the path is rebuilt, the selector node stays the very object
+        for _ in range(max(6, self.n(tier) // 12)):
+            opt = g.rng.choice([['cont', 'u8', 'u16', 'u64'], ['vec', 'u64', 8], ['list', 'u16', 40], ['bv', 300], ['cont', 'u8', ['vec', 'u8', 3]]])
+            u = ['union'] + (['none'] if g.rng.random() < 0.5 else []) + ([g.rng.choice(['u8', ['list', 'u8', 2]])] if g.rng.random() < 0.5 else []) + [opt]
+            sel = len(u) - 2
+            uv = g.val(opt, 6)
+            if kind(opt) == 'list' and len(uv) < 2:
+                uv = ['s', '5', '6']
+            w = StoreGen(g, opt, uv)
+            write = None
+            for _t in range(8):
+                cand = w.one_op(dict(t=opt, v=uv, hook=None, kids=False))
+                if cand is not None and cand[0] == 'set' and (kind(opt) != 'cont' or isinstance(opt[1 + int(cand[1])], str)):
+                    write = cand
+                    break
+            if write is None:
+                continue
+            t, v, base = (u, ['u', sel, uv], 0)
+            ops = [['child', 0, 0], ['mut', 0, ['chg', sel, uv]], ['mut', 1, write], ['mut', 0, ['chg', sel, uv]], ['mut', 1, write]]
+            out.append(show(['store', t, v] + ops))
         # the sequence type spelled a second time with a separately evaluated element class (same name, same fields): an
         # already hashed view of THAT class is stored — only the path is hashed (`histf`: the second spelling is used)
         for _ in range(self.n(tier) // 5):
@@ -2434,6 +2557,10 @@ class C19(HistProp):
         if case[0] == 'store':
             for i, op in enumerate(case[3:]):
                 p = '%d.' % i
+                if py.get(p + 'refreshed') not in (None, '0'):
+                    out.append(F('prop', 'after op %d %s an enclosing view\'s new backing holds, next to the path to the position its child wrote back to (or, in the '
+                                 'mutated view, off the path of the one chunk written), nodes that are not the very objects of its previous backing' % (i, show(op)), py.get(p + 'refreshed'), '0'))
+                    break
                 if op[0] != 'mut' or (p + 'cost') not in py or mo.get(p + 'bound') in (None, '-'):
                     continue
                 bump(stats, 'ops', 'child-mut:' + op[2][0])
@@ -2522,7 +2649,7 @@ class C17(Prop):
                 if r.random() < 0.25 and kind(t) in ('list', 'vec', 'bl', 'bv'):
                     ops.append(['slice', r.randint(0, 40), r.randint(0, 40)])
                 if r.random() < 0.15 and kind(t) in ('list', 'vec', 'bl', 'bv'):
-                    ops.append(['iterk', r.choice([0, 1, 1, 2, 3, 9, 40])])
+                    ops.append([r.choice(['iterk', 'roiterk']) if kind(t) in ('list', 'vec') else 'iterk', r.choice([0, 1, 1, 2, 3, 9, 40])])
                 if r.random() < 0.15 and kind(t) in ('list', 'vec', 'cont'):
                     ck = [i for i in range(len(v) - 1) if kind(t[1 + i] if kind(t) == 'cont' else t[1]) in ('list', 'vec', 'cont', 'bl', 'bv', 'union')]
                     if ck:
@@ -2579,7 +2706,8 @@ class C17(Prop):
             for _ in range(r.choice([3, 6])):
                 ops.append(r.choice([['slice', r.randint(0, n), r.randint(0, n)], ['slice', r.randint(0, n), r.randint(0, n)],
                                      ['elem', r.randint(0, n)], ['len'],
-                                     ['iterk', r.choice([1, 2, r.randint(0, n), r.randint(0, n)])] if kind(t) in ('list', 'vec', 'bl', 'bv') else ['len']]))
+                                     ['iterk', r.choice([1, 2, r.randint(0, n), r.randint(0, n)])] if kind(t) in ('list', 'vec', 'bl', 'bv') else ['len'],
+                                     ['roiterk', (32 // UINT_W.get(t[1], 1) if isinstance(t[1], str) else 1) * r.choice([1, 2, 3])] if kind(t) in ('list', 'vec') else ['len']]))
             out.append(show(['partial', t, v, pos] + ops))
         # composite fields / elements summarised AT THEIR OWN ROOT: obtaining the child view and asking for its root needs
         # nothing below it; reading into it must fail
@@ -2761,7 +2889,7 @@ class C20(Prop):
                 for o in hist:
                     if r.random() < 0.4:
                         ops.append(r.choice([['read'], ['len'], ['bytes'], ['root'], ['elem', r.randint(0, 6)], ['elem', r.randint(0, 300)],
-                                             ['iter'], ['slice', r.randint(0, 9), r.randint(0, 9)], ['nav', r.randint(1, 1 << r.choice([2, 4, 7]))], ['nav', 0]]))
+                                             ['iter'], ['slice', r.randint(0, 9), r.randint(0, 9)], ['nav', r.randint(1, 1 << r.choice([2, 4, 7]))], ['nav', 0], ['obj']]))
                     ops.append(o)
                 ops.append(['read'])
             ops.append(['bytes'])
